@@ -61,10 +61,10 @@ def one_world(chk, rnd, quick, wn, cfgsel):
     nontrivial = 0
     for l in open(os.path.join(vlib.sub("c08-" + wn), "groups.ndjson")):
         g = json.loads(l)
-        if any(o in "TF" for o in g["obs"]):
+        if any(o in "TF" for o in g.get("obs", [])):
             nontrivial += 1
     for g in bad:
-        chk.violation({"law": "documents differing only in hidden content give the same outcome", "group": {k: v for k, v in g.items() if k != "info"}, "info": g["info"]})
+        chk.violation({"law": g["info"].get("law", "documents differing only in hidden content give the same outcome"), "group": {k: v for k, v in g.items() if k != "info"}, "info": g["info"]})
     for s in summ["samples"][:3]:
         chk.sample(s)
     # a selector naming a hidden field never resolves to its content: the reference outcome (error / unknown value)
